@@ -26,6 +26,7 @@ props! {
     c09 => "C09",
     c10 => "C10",
     c11 => "C11",
+    c12 => "C12",
     c17 => "C17",
     c19 => "C19",
 }
